@@ -189,6 +189,42 @@ fn zero_product(r: &mut Rng, bits: usize) -> Option<(Vec<u64>, Vec<u64>, Vec<u64
     Some((big::limbs(&a, l), big::limbs(&b, l), big::limbs(&md, l)))
 }
 
+fn sub0(a: &BigUint, b: &BigUint) -> BigUint {
+    if a >= b { a - b } else { BigUint::from(0u8) }
+}
+
+/// Operands chosen so that the value *before* the final conditional subtraction is congruent to a target T at
+/// the edges of that step: T = R + d (the carry out of the last row is set and the limbs below it are small),
+/// R - 1 - d, m + d, m - 1 - d, 2m - 1 - d, with R = 2^(64 LIMBS). The implementation's unreduced value is T or
+/// T - m; with b = T * R * a^-1 mod m either way a * b * R^-1 = T (mod m), and the value oracle decides.
+fn targeted(r: &mut Rng, md: &[u64], bits: usize) -> Option<(Vec<u64>, Vec<u64>)> {
+    let l = gen::nlimbs(bits);
+    let bm = big::big(md);
+    let big_r = big::p2(64 * l);
+    let a = big::big(&operand(r, md, bits));
+    let ainv = a.modinv(&bm)?;
+    let d = match r.below(5) {
+        0 => BigUint::from(0u8),
+        1 => BigUint::from(1u8),
+        2 => BigUint::from(r.u64()),
+        3 if l >= 2 => big::big(&gen::uniform(r, 64 * (l - 1))),
+        _ => big::big(&gen::alphabet(r, 64 * l)) >> r.range(1, 64 * l),
+    };
+    let two_m = &bm * 2u8;
+    let t = match r.below(6) {
+        0 | 1 => &big_r + &d,
+        2 => sub0(&big_r, &(&d + 1u8)),
+        3 => &bm + &d,
+        4 => sub0(&bm, &(&d + 1u8)),
+        _ => sub0(&two_m, &(&d + 1u8)),
+    };
+    if t >= two_m {
+        return None;
+    }
+    let b = (&t % &bm) * (&big_r % &bm) % &bm * ainv % &bm;
+    Some((big::limbs(&a, l), big::limbs(&b, l)))
+}
+
 fn workload(m: &mut Mon) {
     // slice level, N = 1..=16
     for n in 1..=16usize {
@@ -207,6 +243,9 @@ fn workload(m: &mut Mon) {
                 let a = operand(&mut r, &md, bits);
                 let b = operand(&mut r, &md, bits);
                 m.case("slice", bits, vec![au(&a), au(&b), au(&md)]);
+                if let Some((a, b)) = targeted(&mut r, &md, bits) {
+                    m.case("slice", bits, vec![au(&a), au(&b), au(&md)]);
+                }
             }
             if m.time_up() {
                 return;
@@ -251,6 +290,9 @@ fn workload(m: &mut Mon) {
                 let a = operand(&mut r, &md, bits);
                 let b = operand(&mut r, &md, bits);
                 m.case("uint", bits, vec![au(&a), au(&b), au(&md)]);
+                if let Some((a, b)) = targeted(&mut r, &md, bits) {
+                    m.case("uint", bits, vec![au(&a), au(&b), au(&md)]);
+                }
             }
             if m.time_up() {
                 return;
